@@ -994,6 +994,8 @@ class Interp:
                 return a + b
             if isinstance(a, tuple) and isinstance(b, tuple):
                 return a + b
+        if isinstance(o, ast.Add) and (isinstance(a, (list, tuple)) or isinstance(b, (list, tuple))):
+            return op("seqcat", to_term(a), to_term(b))
         if isinstance(o, ast.Mult):
             if isinstance(a, (list, tuple, str)) and as_int(b) is not None:
                 return a * as_int(b)
